@@ -15,6 +15,7 @@
   * `C08_ops_trace`        fault-free run over an existing target: after `k ≤ length ops` boundaries the
                            calls issued are exactly `take k (atomicWriteOps pid target chunks)`, all
                            successful; after `length ops` the call has returned normally
+  * `C08_name_too_long`    temp name longer than NAME_MAX ⇒ raises ENAMETOOLONG at `open`, directory unchanged
   * `C08_mode_partial`     replacement happened and `chmod` succeeded ⇒ mode(target) = previous mode
   * `C08_mode_strict`      repaired policy: replacement happened, previous file existed, no injected
                            ENOENT ⇒ mode(target) = previous mode       (full-strength C08_mode)
@@ -69,19 +70,20 @@ theorem C08_fault_outcome (env : Env) (strict : Bool) (fault : Faults) (fs : FS 
   exact ⟨hfin, fun he => h.replaced ⟨hfin, he⟩, fun he => h.untouched (fun hd => he hd.2)⟩
 
 /-- **C08_ops_trace** — the op list is the code's call sequence: over an existing target and
-without faults, after `k ≤ length ops` call boundaries the calls issued so far are exactly the
+without faults, the temp name fitting the directory's NAME_MAX, after `k ≤ length ops` call boundaries the calls issued so far are exactly the
 first `k` elements of `atomicWriteOps pid target chunks`, every one successful (so the states of
 `C08_crash` are the states after `take k ops`), and after `length ops` boundaries the call has
 returned normally. -/
 theorem C08_ops_trace (env : Env) (strict : Bool) (fs : FS α) (pid : Nat) (target : Path)
-    (chunks : List (List α)) (fo : File α) (hfo : fs target = some fo) (k : Nat)
+    (chunks : List (List α)) (fo : File α) (hfo : fs target = some fo)
+    (hfit : (tmpName target pid).length ≤ env.nameMax) (k : Nat)
     (hk : k ≤ (atomicWriteOps pid target chunks).length) :
     let r := runN env strict noFaults k fs (Proc.init (atomicWriteOps pid target chunks))
     r.2.log = ((atomicWriteOps pid target chunks).take k).map (fun o => (o, none)) ∧
     r.2.err = none ∧ (k = (atomicWriteOps pid target chunks).length → r.2.done) := by
   intro r
   have htg := tmpName_ne_target target pid
-  obtain ⟨hl, hlen⟩ := (LInv.init (tmpName target pid) target chunks fs fo hfo).runN env strict htg k
+  obtain ⟨hl, hlen⟩ := (LInv.init (tmpName target pid) target chunks fs fo hfo).runN env strict htg (Nat.not_lt.mpr hfit) k
     (CInv_init (tmpName target pid) target chunks fs) (by simpa [Proc.init, atomicWriteOps] using hk)
   have hlen' : r.2.log.length = k := by simpa [r, Proc.init, atomicWriteOps] using hlen
   have hsplit : r.2.log.map Prod.fst ++ r.2.todo = atomicWriteOps pid target chunks := hl.split
@@ -92,6 +94,38 @@ theorem C08_ops_trace (env : Env) (strict : Bool) (fs : FS α) (pid : Nat) (targ
   have := congrArg List.length hsplit
   simp only [List.length_append, List.length_map] at this
   exact List.length_eq_zero_iff.mp (by omega)
+
+/-- **C08_name_too_long** — a target whose temp name `<target>.tmp.<pid>` exceeds the directory's NAME_MAX:
+the very first call (`open`) fails, the call raises ENAMETOOLONG and nothing in the directory changes. -/
+theorem C08_name_too_long (env : Env) (strict : Bool) (fault : Faults) (h0 : fault 0 = none) (fs : FS α) (pid : Nat)
+    (target : Path) (chunks : List (List α)) (hlong : env.nameMax < (tmpName target pid).length) :
+    let r := run env strict fault fs (Proc.init (atomicWriteOps pid target chunks))
+    r.2.err = some ENAMETOOLONG ∧ r.2.todo = [] ∧ r.1 = fs := by
+  have hidle : ∀ (k : Nat) (fs : FS α) (p : Proc α), p.todo = [] → runN env strict fault k fs p = (fs, p) := by
+    intro k
+    induction k with
+    | zero => intro fs p _; rfl
+    | succ k ih =>
+      intro fs p hp
+      obtain ⟨todo, st, idx, err, log⟩ := p
+      simp only at hp; subst hp
+      simp only [runN, step_nil]
+      exact ih _ _ rfl
+  have hstep : (Proc.init (atomicWriteOps pid target chunks) : Proc α).step env strict fault fs =
+      (fs, ⟨[], none, 0 + 1, some ENAMETOOLONG, [] ++ [(Op.openTrunc (tmpName target pid), some ENAMETOOLONG)]⟩) :=
+    step_err_raise (e := ENAMETOOLONG) env strict fault fs _ _ _ _ _ _ h0 (by simp [sys, hlong]) (by simp [swallows])
+  have hlenp : (Proc.init (atomicWriteOps pid target chunks) : Proc α).todo.length = (chunks.length + 5) + 1 := by
+    simp [Proc.init, atomicWriteOps, opsAt, body, tail4]
+  intro r
+  have hr : r = (fs, ⟨[], none, 0 + 1, some ENAMETOOLONG, [] ++ [(Op.openTrunc (tmpName target pid), some ENAMETOOLONG)]⟩) := by
+    show run env strict fault fs _ = _
+    unfold run
+    rw [hlenp]
+    simp only [runN]
+    rw [hstep]
+    exact hidle _ _ _ rfl
+  rw [hr]
+  exact ⟨rfl, rfl, rfl⟩
 
 example : (atomicWriteOps 7 ['t'] [[1], [2, 3]] : List (Op Nat)) =
     [.openTrunc (tmpName ['t'] 7), .write (tmpName ['t'] 7) [1], .write (tmpName ['t'] 7) [2, 3],
@@ -120,7 +154,7 @@ example :
     (fun r : FS Nat × Proc Nat =>
       (r.2.todo = [] ∧ r.2.err = none) ∧ ((Op.chmod ['x'] : Op Nat), (none : Option Errno)) ∈ r.2.log ∧
         (r.1 ['t']).map File.mode = some 384)
-    (run ⟨420, 0⟩ false noFaults exFs (Proc.init (opsAt ['x'] ['t'] [[1], [2]]))) := by decide
+    (run ⟨420, 0, 255⟩ false noFaults exFs (Proc.init (opsAt ['x'] ['t'] [[1], [2]]))) := by decide
 
 /-- **C08_mode_strict** — full-strength `C08_mode` for the repaired exception policy
 (`strict = true`, fixes/C08-D6.diff): for EVERY fault plan that does not make `stat` lie about
@@ -139,7 +173,7 @@ theorem C08_mode_strict (env : Env) (fault : Faults) (hne : ∀ i, fault i ≠ s
 ignored, the call returns normally and the mode is kept -/
 example :
     (fun r : FS Nat × Proc Nat => (r.2.todo = [] ∧ r.2.err = none) ∧ (r.1 ['t']).map File.mode = some 384)
-    (run ⟨420, 0⟩ true (fun i => if i = 5 then some 5 else none) exFs (Proc.init (opsAt ['x'] ['t'] [[1]]))) := by
+    (run ⟨420, 0, 255⟩ true (fun i => if i = 5 then some 5 else none) exFs (Proc.init (opsAt ['x'] ['t'] [[1]]))) := by
   decide
 
 /-! ### Witness: D6.  Target of the repair = `C08_mode_strict` with `strict` arbitrary, i.e.
@@ -158,22 +192,22 @@ theorem C08_mode_false_witness :
     let fs : FS Nat := fun p => if p = ['t'] then some ⟨[0], 0o600, 0⟩ else none
     let chmodFails : Faults := fun i => if i = 4 then some 5 else none
     let statFails : Faults := fun i => if i = 3 then some 5 else none
-    let r := run ⟨0o644, 0⟩ false chmodFails fs (Proc.init (opsAt ['x'] ['t'] [[1]]))
-    let r' := run ⟨0o644, 0⟩ false statFails fs (Proc.init (opsAt ['x'] ['t'] [[1]]))
+    let r := run ⟨0o644, 0, 255⟩ false chmodFails fs (Proc.init (opsAt ['x'] ['t'] [[1]]))
+    let r' := run ⟨0o644, 0, 255⟩ false statFails fs (Proc.init (opsAt ['x'] ['t'] [[1]]))
     (r.2.todo = [] ∧ r.2.err = none ∧ r.1 ['t'] = some ⟨[1], 0o644, 0⟩) ∧
     (r'.2.todo = [] ∧ r'.2.err = none ∧ r'.1 ['t'] = some ⟨[1], 0o644, 0⟩) ∧
     ¬ (∀ (fault : Faults), (∀ i, fault i ≠ some ENOENT) →
-        let q := run ⟨0o644, 0⟩ false fault fs (Proc.init (opsAt ['x'] ['t'] [[1]]))
+        let q := run ⟨0o644, 0, 255⟩ false fault fs (Proc.init (opsAt ['x'] ['t'] [[1]]))
         q.2.done → ∃ f, q.1 ['t'] = some f ∧ f.mode = 0o600) := by
   refine ⟨by decide, by decide, ?_⟩
   intro h
   have h1 := h (fun i => if i = 4 then some 5 else none) (by intro i; by_cases hi : i = 4 <;> simp [hi, ENOENT])
-  have hd : (run ⟨0o644, 0⟩ false (fun i => if i = 4 then some 5 else none)
+  have hd : (run ⟨0o644, 0, 255⟩ false (fun i => if i = 4 then some 5 else none)
       (fun p => if p = ['t'] then some (⟨[0], 0o600, 0⟩ : File Nat) else none)
       (Proc.init (opsAt ['x'] ['t'] [[1]]))).2.done := by
     unfold Proc.done; decide
   obtain ⟨f, hf, hmode⟩ := h1 hd
-  have hex : (run ⟨0o644, 0⟩ false (fun i => if i = 4 then some 5 else none)
+  have hex : (run ⟨0o644, 0, 255⟩ false (fun i => if i = 4 then some 5 else none)
       (fun p => if p = ['t'] then some (⟨[0], 0o600, 0⟩ : File Nat) else none)
       (Proc.init (opsAt ['x'] ['t'] [[1]]))).1 ['t'] = some ⟨[1], 0o644, 0⟩ := by decide
   rw [hex] at hf
@@ -210,7 +244,7 @@ theorem C08_two_writers_final (env : Env) (strict : Bool) (fa fb : Faults) (fs :
 /-- the hypothesis `pidA ≠ pidB` is needed: with one temp name for both (same pid — the model's
 path-addressed `write` then lets both append to one file) an interleaving leaves a mixed file -/
 example :
-    ((runSched ⟨420, 0⟩ false noFaults noFaults
+    ((runSched ⟨420, 0, 255⟩ false noFaults noFaults
       (⟨exFs, Proc.init (opsAt ['x'] ['t'] [[1]]), Proc.init (opsAt ['x'] ['t'] [[2]])⟩ : Sys2 Nat)
       [false, true, false, true, false, false, false, false, false]).fs ['t']).map File.content
       = some [1, 2] := by decide
